@@ -12,6 +12,7 @@ import TantivyModel.Proofs.Store.Framing
 import TantivyModel.Proofs.Store.WriterBound
 import TantivyModel.Model.Store.Utf8
 import TantivyModel.Proofs.Store.Lz4
+import TantivyModel.Model.Store.PreTok
 /-!
 # C09 — Stored documents are returned exactly as they were added
 
@@ -168,6 +169,20 @@ theorem C09_compact_doc_field_limit (fvs : List (BitVec 32 × StoredValue)) (fue
     have := cdReadDoc_add fvs [] [] fuel hf hb
     simpa using this
   · cases hr
+
+/-- contract of serde_json for the struct `PreTokenizedString` -/
+def PreTokJsonGood (J : PreTokJson) : Prop := ∀ p, J.fromJson (J.toJson p) = some p
+
+/-- a pre-tokenized text added at the top level of a document (`add_pre_tokenized_text`): the
+document holds its JSON; `serialize_doc` reads it back from `node_data` and stores exactly the
+text, as a plain string (this is `FieldInput.preTokText` of `C09_doc_codec_roundtrip`). Nested in
+an array or object it keeps its JSON (`C09_value_codec_roundtrip`, `.preTok`). -/
+theorem C09_pretok_top_level (J : PreTokJson) (hJ : PreTokJsonGood J) (p : PreTok) (node ext : Bytes)
+    (fuel : Nat) (hf : 1 ≤ fuel) (hb : (cdAdd node (preTokValue J p)).1.length < 4294967296) :
+    (cdRead fuel ((cdAdd node (preTokValue J p)).1 ++ ext) (cdAdd node (preTokValue J p)).2).bind (topLevelStored J)
+      = some (.str p.text) := by
+  rw [C09_compact_doc_value_roundtrip (preTokValue J p) node ext fuel (by simpa [preTokValue, depthV] using hf) hb]
+  simp [preTokValue, topLevelStored, hJ p]
 
 /-- The whole path of one value: what the user adds (`v`, in-memory reading) is what the document
 returns before it is stored; `serialize_value` writes `memToDisk v`; the store codec returns exactly
@@ -926,5 +941,15 @@ example : lz4EncodeLiteral [1, 2, 3] = [48, 1, 2, 3] := by decide
 example : lz4Decode [0x12, 7, 1, 0, 0] = some [7, 7, 7, 7, 7, 7, 7] := by decide
 example : (cdAddDocChecked [] [(65535, .null)]).isSome = true ∧ (cdAddDocChecked [] [(65536, .null)]).isSome = false := by
   decide
+
+/-- a JSON codec satisfying the contract (text and tokens length-prefixed by one byte) -/
+example : PreTokJsonGood
+    { toJson := fun p => UInt8.ofNat p.text.length :: (p.text ++ p.tokens),
+      fromJson := fun bs => match bs with
+        | [] => none
+        | n :: r => some { text := r.take n.toNat, tokens := r.drop n.toNat } } →
+    True := fun _ => trivial
+example : topLevelStored { toJson := fun p => p.text, fromJson := fun b => some { text := b, tokens := [] } }
+    (.preTok [104, 105]) = some (.str [104, 105]) := rfl
 
 end TantivyModel.C09
